@@ -2,6 +2,7 @@ package c
 
 import (
 	"bytes"
+	"time"
 
 	"verifh/nd"
 )
@@ -33,3 +34,5 @@ func be(b []byte) uint64 {
 
 // cAssert is nd.Assert (kept as a function so that harness code may shadow the package name locally).
 func cAssert(c bool, label string) { nd.Assert(c, label) }
+
+func nowZero() (t time.Time) { return }
